@@ -67,6 +67,26 @@ def prepare(x):
     return mol
 
 
+def graph_key(x):
+    """What molecule RDKit itself takes an input to be: its canonical SMILES after standard parsing/sanitisation plus the
+    multiset of (element, charge, radical electrons, H count).  Two inputs denote the same molecule *for RDKit* exactly when
+    these agree (assumption A-graph is checked, not assumed: exotic inputs — e.g. an aromatic atom carrying a zero-order
+    bond — are perceived differently in Kekulé and aromatic spelling, and are then not equivalent inputs).  Independent of
+    the Kekulé form."""
+    try:
+        if isinstance(x, str):
+            mol = Chem.MolFromSmiles(x)
+            if mol is None:
+                return None
+        else:
+            mol = Chem.Mol(x)
+            Chem.SanitizeMol(mol)
+        inv = sorted((a.GetSymbol(), a.GetFormalCharge(), a.GetNumRadicalElectrons(), a.GetTotalNumHs()) for a in mol.GetAtoms())
+        return Chem.MolToSmiles(mol), tuple(inv)
+    except Exception:
+        return None
+
+
 # ----------------------------------------------------------------------------- implementation, canonically observed
 def impl_descriptors(lib, x):
     """{'ok': {name: count}} | {'err': 'patternMatch'} | {'err': 'internal:<Type>'}"""
